@@ -48,6 +48,14 @@ def apply_op(G, op):
             l = G.try_get_line(op[1])
             l.name = op[2]
         return impl.outcome(f)
+    if k == 'rmline':
+        # removal by instance: the first line that is not a placeholder and is written as the given text
+        def f():
+            for x in G.lines:
+                if x.record_type != 'H' and not x.virtual and str(x) == op[1]:
+                    return G.rm(x)
+            raise g.NotFoundError('no line is written as %r' % op[1])
+        return impl.outcome(f)
     raise ValueError(k)
 
 
@@ -56,6 +64,8 @@ def op_term(op):
         return '(OAdd %s)' % cstr(op[1])
     if op[0] == 'rm':
         return '(ORm %s)' % cstr(op[1])
+    if op[0] == 'rmline':
+        return '(ORmLine %s)' % cstr(op[1])
     return '(ORename %s %s)' % (cstr(op[1]), cstr(op[2]))
 
 
@@ -167,6 +177,11 @@ def gen_history(rng, version, nops=None, fail_rate=0.25):
                 named = [(k, new if (x == old and k == 'S') else x) for k, x in named]
         elif r < 0.6:
             ops.append(('rm', rng.choice(['nosuch', '*', fresh()])))
+        elif r < 0.7:
+            # removal by instance of a line without identifier (fragments, links, containments, unnamed edges and gaps)
+            anon = [l for l in lines if l[:1] in 'LCF' or l.startswith(('E\t*\t', 'G\t*\t'))]
+            if anon:
+                ops.append(('rmline', rng.choice(anon)))
         else:
             # add: a line of the document again (duplicate / complement / merge), a new valid one, or a malformed one
             c = rng.random()
